@@ -55,5 +55,13 @@ Definition umodel (d : Gen.decl) : xres :=
       end
   end.
 
-Definition xmismatches (cs : list (nat * (Gen.decl * xres))) : list nat :=
-  flat_map (fun c => if xres_eqb (umodel (fst (snd c))) (snd (snd c)) then [] else [fst c]) cs.
+(* which component differs: 1 = accept/reject verdict, 2 = signature, 4 = thread programs (sum of the codes) *)
+Definition xdiff (a b : xres) : nat :=
+  match a, b with
+  | XRej x, XRej y => if Nat.eqb x y then 0 else 1
+  | XAcc s m g, XAcc s' m' g' =>
+      (if xsig_eqb s s' then 0 else 2) + (if list_eqb xitem_eqb m m' && list_eqb (list_eqb xitem_eqb) g g' then 0 else 4)
+  | _, _ => 1
+  end.
+Definition xmismatches (cs : list (nat * (Gen.decl * xres))) : list (nat * nat) :=
+  flat_map (fun c => match xdiff (umodel (fst (snd c))) (snd (snd c)) with 0 => [] | k => [(fst c, k)] end) cs.
